@@ -412,11 +412,11 @@ def order_runs(res, adv, tier, valid=(), seed=0):
             measure(res, fixed + lat[k % 3::3], ms, st, rf, T, "random%d(N=%d) " % (k, nb), (-1,), accbound=5e-3)
     # adaptive schemes: accuracy and its response to the tolerance
     for sgn in (1, -1):
-        for name, tight, loose in [("ias15", {"epsilon": 1e-9, "adaptive_mode": am}, {"epsilon": 1e-5, "adaptive_mode": am}) for am in (2, 0, 1, 3)] + \
-                [("ias15", {"epsilon": 0.0}, {"epsilon": 0.0}), ("ias15", {"epsilon": 1e-9, "min_dt": 0.02}, {"epsilon": 1e-5, "min_dt": 0.02}),
-                 ("bs", {"eps_rel": 1e-11, "eps_abs": 1e-11}, {"eps_rel": 1e-6, "eps_abs": 1e-6})]:
+        for name, tight, loose, tighter in [("ias15", {"epsilon": 1e-9, "adaptive_mode": am}, {"epsilon": 1e-5, "adaptive_mode": am}, ({"epsilon": 1e-12, "adaptive_mode": am} if am >= 2 else None)) for am in (2, 0, 1, 3)] + \
+                [("ias15", {"epsilon": 0.0}, {"epsilon": 0.0}, None), ("ias15", {"epsilon": 1e-9, "min_dt": 0.02}, {"epsilon": 1e-5, "min_dt": 0.02}, {"epsilon": 1e-13, "min_dt": 0.02}),
+                 ("bs", {"eps_rel": 1e-11, "eps_abs": 1e-11}, {"eps_rel": 1e-6, "eps_abs": 1e-6}, None)]:      # (a BS tolerance below ~1e-12 cannot be met in binary64)
             errs = []
-            for opts in (loose, tight):
+            for opts in (loose, tight) + ((tighter,) if tighter else ()):
                 sim = rebound.Simulation()
                 for i, m in enumerate(masses):
                     sim.add(m=m, x=s0[6 * i], y=s0[6 * i + 1], z=s0[6 * i + 2], vx=s0[6 * i + 3], vy=s0[6 * i + 4], vz=s0[6 * i + 5])
@@ -432,6 +432,9 @@ def order_runs(res, adv, tier, valid=(), seed=0):
             res["observed"]["adaptive %s %s dir%+d" % (name, {k: v for k, v in tight.items() if k != "epsilon"}, sgn)] = errs
             if not errs[1] <= 1e-9 or not errs[1] <= errs[0] + 1e-12:
                 viol(res, "adaptive-accuracy", integrator=name, direction=sgn, loose=errs[0], tight=errs[1])
+            # tightening the tolerance further never makes the result worse than the class of the tight run
+            if len(errs) > 2 and not errs[2] <= max(errs[1], 1e-10):
+                viol(res, "adaptive-accuracy", integrator=name, direction=sgn, opts=tighter, tight=errs[1], tighter=errs[2])
 
 
 def ode_runs(res, tier):
